@@ -25,6 +25,7 @@ CONSTANTS
   DropKeepsDefault = TRUE
   RenameKeepsDefault = TRUE
   HalfYearIsLong = TRUE
+  RenameAcceptsEmpty = TRUE
 INVARIANTS Inv_ProbeOutcomes
 VIEW View
 CHECK_DEADLOCK FALSE
